@@ -518,6 +518,14 @@ UsableScope(sc) ==
               /\ InlineOK(t, tab)
 Usable(s) == \A sc \in TopScopes(s) : UsableScope(sc) /\ (s.kind = "schema" => ~HasForeignRef(sc))
 
+\* C10 on the model.  Load is the design the property demands: accept, link, check - each step turning a
+\* fault into an error - and only then hand the schema out.  What it hands out is fully usable.
+Load(target, n) ==
+    LET c == Classify(target, n) IN
+    IF c.stage = "usable" THEN [ok |-> TRUE, schema |-> Rebuild(target, n)]
+    ELSE [ok |-> FALSE, stage |-> c.stage, cause |-> c.cause]
+AcceptedImpliesUsable(target, n) == Load(target, n).ok => Usable(Load(target, n).schema)
+
 (* ------------------------------------------------------------------------ *)
 (* transports: what CBOR, YAML and JSON do to a description on the way       *)
 (* (checked against the real codecs by the harness)                         *)
